@@ -458,7 +458,7 @@ func judgeCLI(c *core.Ctx, judge judgeFn, cli string, s scase) {
 		return
 	}
 	defer os.RemoveAll(dir)
-	os.WriteFile(filepath.Join(dir, "h1.pangaea"), []byte("v1 := 41\n"), 0o644)
+	os.WriteFile(filepath.Join(dir, "h1.pangaea"), []byte("v1 := 41\nv"+strings.Repeat("y", 80)+" := 1\n"), 0o644)
 	os.WriteFile(filepath.Join(dir, "h2.pangaea"), []byte("invite!(\"./h1\")\nv2 := v1 + 1\n"), 0o644)
 	args := []string{"30", cli, "-e", s.Src}
 	if s.Mode == "cli-file" {
@@ -562,6 +562,14 @@ func sweepSources(c *core.Ctx, judge judgeFn) {
 			cases = append(cases, scase{Mode: "producer-consumer", Src: strings.ReplaceAll(cs, "§", "("+p+")")})
 		}
 		cases = append(cases, scase{Mode: "producer-consumer", Src: p})
+	}
+	// names of every length class reaching the places that turn a symbol back into its text
+	for _, n := range []int{1, 31, 32, 33, 63, 64, 65, 66, 100, 255, 256, 257, 1024} {
+		name := "v" + strings.Repeat("x", n-1)
+		for _, src := range []string{`"NAME := 1".evalEnv`, `"NAME := 1; q := 2".evalEnv.keys`, `NAME := 2; "NAME".eval`, "{NAME: 1}.items", `{|NAME: 3| \_}(NAME: 4)`, "%{**{NAME: 1}}", "o := {NAME: 1}; o.which('NAME)",
+			`"NAME := 1".evalEnv.S`, "JSON.dec(`{\"NAME\": 1}`).keys", "{NAME: 1}.try.NAME.A", "'NAME({NAME: 5})"} {
+			cases = append(cases, scase{Mode: "long-name", Src: strings.ReplaceAll(src, "NAME", name)})
+		}
 	}
 	c.Note("source_form_cases", len(cases))
 	saveT, saveD := panrun.FuelTicks, panrun.FuelDepth
